@@ -69,6 +69,55 @@ def corpus(limit, r):
     return names[:limit]
 
 
+def grammar_sentences(r, n):
+    """random sentences of rule 'deriv' (a residue with any of the modification forms of the grammar), drawn from the
+    grammar file itself, alone and inside a small glycan"""
+    sys.path.insert(0, os.path.join(C.VERIF, "tools", "translate"))
+    import gen_grammar
+    _, rules, implicit, table = gen_grammar._parse(C.REPO)
+    rules = dict(rules)
+    lits = {nm: ls for nm, kind, ls in table if kind == "lits"}
+
+    def tok(name):
+        if name == "NUM":
+            return r.choice(["1", "2", "3", "4", "5", "6", "7", "8", "9", "12", "15", "16", "18", "20"])
+        ls = lits.get(name, [])
+        if not ls:
+            return ""
+        # favour the short and the rare
+        return r.choice(ls)
+
+    def expand(e, depth):
+        k = e[0]
+        if k == "lit":
+            return e[1]
+        if k == "ref":
+            if e[1][0].isupper():
+                return tok(e[1])
+            return expand(rules[e[1]], depth + 1) if depth < 8 else ""
+        if k == "eps":
+            return ""
+        if k == "seq":
+            return "".join(expand(x, depth) for x in e[1])
+        if k == "alt":
+            return expand(r.choice(e[1]), depth)
+        if k == "opt":
+            return expand(e[1], depth) if r.random() < 0.5 else ""
+        if k == "star":
+            return "".join(expand(e[1], depth) for _ in range(r.choice([0, 0, 1, 1, 2])))
+        if k == "plus":
+            return "".join(expand(e[1], depth) for _ in range(r.choice([1, 1, 2])))
+        return ""
+
+    out = []
+    for _ in range(n):
+        d = expand(rules["deriv"], 0)
+        if 0 < len(d) < 60:
+            out.append(d)
+            out.append(r.choice([d + "(a1-4)Glc", "Man(a1-3)" + d, d + "(b1-3)[Fuc(a1-4)]GlcNAc b"]))
+    return out
+
+
 def make_inputs(r, tier):
     items = []
     n = 2 if tier == "quick" else 3
@@ -90,6 +139,14 @@ def make_inputs(r, tier):
     for s in valid:
         for m in mutants(r, s, 4 if tier == "quick" else 8):
             items.append(("mutant", m))
+    # residues drawn from the grammar itself (every modification form, rare tokens) and their single edits
+    for gsent in grammar_sentences(r, 120 if tier == "quick" else 1500):
+        items.append(("grammar-sentence", gsent))
+        for m in mutants(r, gsent, 3):
+            items.append(("grammar-mutant", m))
+        if len(gsent) > 2:
+            i = r.randint(0, len(gsent) - 1)
+            items.append(("grammar-mutant", gsent[:i] + gsent[i + 1:]))
     # truncations: every prefix and every suffix of some valid glycans, random cut points of the others
     for i, s in enumerate(valid):
         cuts = range(1, len(s)) if i < (6 if tier == "quick" else 60) else r.sample(range(1, max(2, len(s))), min(3, max(1, len(s) - 1)))
@@ -168,7 +225,7 @@ def run(tier):
                     {"no_failing_input": True, "what_no_longer_checks": broken, "theorems": names_thm})
     report.assumptions = ["A-antlr: the ANTLR runtime and the generated tables (GlycanLexer.py / GlycanParser.py) are compared with the grammar file through the library's accept/reject answer only; the ALL(*) interpreter itself is foreign code",
                           "tokenisation by longest match with declaration-order priority is a definition (Spec/Ebnf.v lex), implicit literal tokens of parser rules first, as ANTLR numbers them"]
-    extra = {"rule": "all sequences of up to 2 (quick) / 3 (thorough) tokens over a reduced alphabet, random sequences of 3-9 tokens, random valid glycans in three notations and their single-edit mutants and truncations (prefixes / suffixes), nested brackets of depth 5-40, chains of up to 120 residues, trees of 15-40 residues and their mutants (verified recogniser with memo table), the reference corpora under tests/data (as inputs only); non-trivial = derivable from the grammar",
+    extra = {"rule": "all sequences of up to 2 (quick) / 3 (thorough) tokens over a reduced alphabet, random sequences of 3-9 tokens, random valid glycans in three notations and their single-edit mutants and truncations (prefixes / suffixes), random sentences of rule 'deriv' drawn from the grammar file with their single edits, nested brackets of depth 5-40, chains of up to 120 residues, trees of 15-40 residues and their mutants (verified recogniser with memo table), the reference corpora under tests/data (as inputs only); non-trivial = derivable from the grammar",
              "by_kind": kinds, "agree_accepted": agree_acc, "agree_rejected": agree_rej, "recogniser_out_of_fuel": fuel, "skipped_too_long_for_recogniser": skipped_long[0],
              "print_assumptions": res.assumptions.get(f"Props/{PROP}.v", "").strip().splitlines()[-3:]}
     return report.finish("proof", ob, dis, names_thm, trusted=C.TRUSTED, extra=extra)
